@@ -101,6 +101,8 @@ type Property struct {
 	RaceFilter func(report string) bool
 	// Post may inspect all results and add run-level requirements (minimum event counts).
 	Post func(rs []Result, ev *Evidence) (inconclusive []string)
+	// ChildEnv is added to the environment of every child process.
+	ChildEnv []string
 	// Exhaustive marks the evidence as a complete enumeration of a finite space, with explanation.
 	Exhaustive func(tier string) (bool, string)
 }
@@ -415,7 +417,11 @@ func Supervise(o SupOpts) int {
 	}
 	sort.Strings(kk)
 	for _, k := range kk {
-		fmt.Printf("KNOWN-FINDING: property=%s key=%s (%d cases) %s\n", o.ID, k, knownSeen[k], known[k].What)
+		what := known[k].What
+		if len(what) > 180 {
+			what = what[:180] + "... (see known_findings.json)"
+		}
+		fmt.Printf("KNOWN-FINDING: property=%s key=%s (%d cases) %s\n", o.ID, k, knownSeen[k], what)
 	}
 	nviol := 0
 	for _, k := range unknownOrder {
@@ -527,6 +533,7 @@ func runFlavor(p *Property, o SupOpts, fl, bin, casesFile string, cases []Case, 
 		cmd.Stdout = ef
 		cmd.Stderr = ef
 		cmd.Env = append(os.Environ(), "GOTRACEBACK=all")
+		cmd.Env = append(cmd.Env, p.ChildEnv...)
 		if fl == "race" {
 			cmd.Env = append(cmd.Env, "GORACE=halt_on_error=0 log_path="+filepath.Join(scratch, fmt.Sprintf("race-%d", n)))
 		}
